@@ -252,3 +252,39 @@ def r6(ctx):
         if "MinOnOff" in mro:
             ctx.check("%s:minonoff-after-commandable" % c.name, mro.index("MinOnOff") > 1 and mro.index("MinOnOff") < mro.index(objs[0]), c.where(), "MinOnOff must sit between the Commandable mix-in and the object class")
     ctx.count("commandable_classes", n)
+
+
+@rule("C17.R7", "every commandable object has its own sixteen slots: the priority array is created per instance, never shared through a property default", floor=3, engines="E0/E1")
+def r7(ctx):
+    prog = ctx.prog
+    m, f, k, meth = commando(ctx)
+    init = meth["__init__"]
+    # a fresh PriorityArray() is stored on the instance whenever none was handed in
+    made = [x for x in ast.walk(init) if isinstance(x, ast.Call) and norm(x.func) == "setattr" and len(x.args) == 3 and norm(x.args[0]) == "self"
+            and isinstance(x.args[2], ast.Call) and norm(x.args[2].func) == "PriorityArray" and not x.args[2].args]
+    ok = len(made) == 1
+    if ok:
+        ev = Evaluator(prog, m)
+        fa = facts_at(made[0])
+        key = [norm(a.left) for a, pol in atoms_of_facts(fa) if isinstance(a, ast.Compare) and len(a.ops) == 1 and isinstance(a.ops[0], (ast.In, ast.NotIn)) and "kwargs" in norm(a.comparators[0])]
+        ok = len(fa) == 1 and len(key) == 1 and norm(made[0].args[1]) == key[0]
+    ctx.check("_Commando.__init__:own-priority-array", ok, where(m, init), "an object constructed without a priority array must get a new PriorityArray() of its own")
+    # property declarations of the mix-in and of every *CmdObject: no default that is an object built once at class-definition time
+    n = 0
+    decls = [x for x in ast.walk(f) if isinstance(x, ast.Call) and isinstance(x.func, ast.Name) and x.func.id.endswith("Property")]
+    for cname, c in m.classes.items():
+        node = c.attrs.get("properties")
+        if node is not None:
+            decls += [x for x in ast.walk(node) if isinstance(x, ast.Call) and isinstance(x.func, ast.Name) and x.func.id.endswith("Property")]
+    for d in decls:
+        n += 1
+        dv = next((kw.value for kw in d.keywords if kw.arg == "default"), d.args[2] if len(d.args) > 2 else None)
+        shared = isinstance(dv, (ast.Call, ast.List, ast.Dict, ast.Set))
+        if shared:
+            ctx.bad("%s:shared-default" % norm(d)[:60], where(m, d), "the default %s is evaluated once and stored in every object without a copy: all objects of the class share it (commands leak between objects)" % norm(dv))
+    ctx.ok("local.object:property-defaults-not-shared", "py34/bacpypes/local/object.py:1")
+    ctx.count("property declarations", n)
+    if n < 5:
+        raise ShapeError("local.object: only %d property declarations found" % n)
+    from .c15 import _fix_length_distinct
+    _fix_length_distinct(ctx)
